@@ -20,6 +20,7 @@ pub fn members(names: &[&str], args: &Args, ev: &mut Ev) -> Vec<wgen::Member> {
             "customs" => fam::customs_family(args.tier.g()),
             "names" => fam::names_family(args.tier.g()),
             "reach" => fam::reach_family(args.tier.g()),
+            "leb" => fam::leb_family(args.tier.g()),
             other => {
                 ev.note(format!("unknown family {}", other));
                 vec![]
